@@ -4,7 +4,8 @@ usage: eval_mutant.py <seeded id> <Cxx> [<Cyy> ...]"""
 import json, os, subprocess, sys
 args = sys.argv[1:]
 scratch = "--scratch" in args          # evaluate in a scratch worktree (VERIF_REPO) instead of /repo itself: used while a
-args = [a for a in args if a != "--scratch"]     # long background run is reading /repo
+tier = "thorough" if "--thorough" in args else "quick"
+args = [a for a in args if a not in ("--scratch", "--thorough")]     # long background run is reading /repo
 sid, checks = args[0], args[1:]
 d = f"/verif/seeded/{sid}"
 repo = "/repo"
@@ -18,10 +19,10 @@ subprocess.run(f"git -C {repo} apply {d}/patch.diff", shell=True, check=True)
 res = {}
 try:
     for c in checks:
-        p = subprocess.run(f"cd /verif && {envp}./check {c} --tier quick", shell=True, capture_output=True, text=True)
+        p = subprocess.run(f"cd /verif && {envp}./check {c} --tier {tier}", shell=True, capture_output=True, text=True)
         viol = sorted({l.split("(clause ")[1].rstrip(")") for l in p.stdout.split("\n") if l.startswith("VIOLATION") and "(clause " in l})
-        res[c] = {"exit": p.returncode, "clauses": viol, "drift_notes": sum(1 for l in p.stdout.split("\n") if "model-drift" in l)}
-        print(c, res[c], flush=True)
+        res[c if tier == "quick" else c + ":thorough"] = {"exit": p.returncode, "clauses": viol, "drift_notes": sum(1 for l in p.stdout.split("\n") if "model-drift" in l)}
+        print(c, res[c if tier == "quick" else c + ":thorough"], flush=True)
         if p.returncode == 2:
             print(p.stderr[-1500:])
 finally:
